@@ -9,6 +9,8 @@ Wire format (S-expressions):
   info   ::= (info (<liveIn>*) (<liveOut>*) (<definedIn>*) (<declared>*) (<undefined>*) <nouts>)
   astmt  ::= (assign info x e) | (expr info e) | (pass info) | (ret info e?) | (raise info t)
            | (if info c (astmt*) (astmt*)) | (while info c (astmt*)) | (for info x it (e?) (astmt*))
+  astmt  also: (with info tag (astmt*)) | (try info (astmt*) ((tag (astmt*))*) (astmt*))
+  tstmt  also: (withT tag (tstmt*)) | (tryT (tstmt*) ((tag (tstmt*))*) (tstmt*))
   tstmt  ::= (assign x e) | (expr e) | (pass) | (ret e?) | (raise t) | (undef x)
            | (ifF c (tstmt*) (tstmt*) (decl*) nouts) | (whileF c (tstmt*) (decl*)) | (forF x it (e?) (tstmt*) (decl*))
   input  ::= ((x val)*)      val ::= <int> | (lst <int>*) | none
@@ -61,6 +63,12 @@ partial def astmt? : Sexp → Option AStmt
   | .list [.atom "while", i, c, b] => do pure (.whileS (← info? i) (← expr? c) (← ablock? b))
   | .list [.atom "for", i, .atom x, it, ex, b] => do
       pure (.forS (← info? i) x (← expr? it) (← optExpr? ex) (← ablock? b))
+  | .list [.atom "with", i, tag, b] => do pure (.withS (← info? i) (← tag.int?) (← ablock? b))
+  | .list [.atom "try", i, b, .list hs, f] => do
+      let hs' ← hs.mapM (fun h => match h with
+        | .list [t, hb] => do pure ((← t.nat?), (← ablock? hb))
+        | _ => none)
+      pure (.tryS (← info? i) (← ablock? b) hs' (← ablock? f))
   | _ => none
 partial def ablock? : Sexp → Option (List AStmt)
   | .list xs => xs.mapM astmt?
@@ -80,6 +88,12 @@ partial def tstmt? : Sexp → Option TStmt
   | .list [.atom "whileF", c, b, d] => do pure (.whileF (← expr? c) (← tblock? b) (← names? d))
   | .list [.atom "forF", .atom x, it, ex, b, d] => do
       pure (.forF x (← expr? it) (← optExpr? ex) (← tblock? b) (← names? d))
+  | .list [.atom "withT", tag, b] => do pure (.withT (← tag.int?) (← tblock? b))
+  | .list [.atom "tryT", b, .list hs, f] => do
+      let hs' ← hs.mapM (fun h => match h with
+        | .list [t, hb] => do pure ((← t.nat?), (← tblock? hb))
+        | _ => none)
+      pure (.tryT (← tblock? b) hs' (← tblock? f))
   | _ => none
 partial def tblock? : Sexp → Option (List TStmt)
   | .list xs => xs.mapM tstmt?
@@ -117,6 +131,8 @@ partial def tstmtSexp : TStmt → Sexp
   | .ifF c b e d n => .list [.atom "ifF", exprSexp c, tblockSexp b, tblockSexp e, Sexp.ofStrs d, Sexp.ofNat n]
   | .whileF c b d => .list [.atom "whileF", exprSexp c, tblockSexp b, Sexp.ofStrs d]
   | .forF x it ex b d => .list [.atom "forF", .atom x, exprSexp it, optExprSexp ex, tblockSexp b, Sexp.ofStrs d]
+  | .withT tag b => .list [.atom "withT", Sexp.ofInt tag, tblockSexp b]
+  | .tryT b hs f => .list [.atom "tryT", tblockSexp b, .list (hs.map fun h => .list [Sexp.ofNat h.1, tblockSexp h.2]), tblockSexp f]
 partial def tblockSexp (b : List TStmt) : Sexp := .list (b.map tstmtSexp)
 end
 
@@ -159,39 +175,58 @@ def outSexp : Option Out → Sexp
 def X0 : Ext := ⟨fun _ args _ => args.headD .none⟩
 
 /-- Which conjunct of the hypotheses fails where (diagnostic data for the evidence; not used by any theorem). -/
-partial def diagS (path : String) : AStmt → List String
+partial def diagS (K : ExcCtx) (path : String) : AStmt → List String
   | .assign i x e =>
       (if subB (vars e) i.liveIn then [] else [path ++ ":assign:reads"]) ++
-      (if subB (i.liveOut.filter (fun y => y != x)) i.liveIn then [] else [path ++ ":assign:out"])
+      (if subB (i.liveOut.filter (fun y => y != x)) i.liveIn then [] else [path ++ ":assign:out"]) ++
+      (if subB K.other i.liveIn then [] else [path ++ ":assign:exc-finally"])
   | .expr i e =>
       (if subB (vars e) i.liveIn then [] else [path ++ ":expr:reads"]) ++
-      (if subB i.liveOut i.liveIn then [] else [path ++ ":expr:out"])
+      (if subB i.liveOut i.liveIn then [] else [path ++ ":expr:out"]) ++
+      (if subB K.other i.liveIn then [] else [path ++ ":expr:exc-finally"])
   | .pass i => if subB i.liveOut i.liveIn then [] else [path ++ ":pass:out"]
-  | .ret i e => if subB (varsO e) i.liveIn then [] else [path ++ ":ret:reads"]
-  | .raise _ _ => []
+  | .ret i e => (if subB (varsO e) i.liveIn then [] else [path ++ ":ret:reads"]) ++
+      (if subB K.other i.liveIn then [] else [path ++ ":ret:exc-finally"])
+  | .raise i t => if subB (K.get (.user t)) i.liveIn then [] else [path ++ ":raise:handler-in"]
   | .ifS i c t e =>
       (if subB (vars c) i.liveIn then [] else [path ++ ":if:test"]) ++
       (if subB (blockIn t i.liveOut) i.liveIn then [] else [path ++ ":if:body-in"]) ++
       (if subB (blockIn e i.liveOut) i.liveIn then [] else [path ++ ":if:orelse-in"]) ++
-      diagB (path ++ ".t") t i.liveOut ++ diagB (path ++ ".e") e i.liveOut
+      (if subB K.other i.liveIn then [] else [path ++ ":if:exc-finally"]) ++
+      (if raiseOKb K i (raisesB t ++ raisesB e) then [] else [path ++ ":if:raise-leaves-body"]) ++
+      diagB K (path ++ ".t") t i.liveOut ++ diagB K (path ++ ".e") e i.liveOut
   | .whileS i c b =>
       (if subB (vars c) i.liveIn then [] else [path ++ ":while:test"]) ++
       (if subB (blockIn b i.liveIn) i.liveIn then [] else [path ++ ":while:body-in"]) ++
       (if subB i.liveOut i.liveIn then [] else [path ++ ":while:exit"]) ++
-      diagB (path ++ ".b") b i.liveIn
+      (if subB K.other i.liveIn then [] else [path ++ ":while:exc-finally"]) ++
+      (if raiseOKb K i (raisesB b) then [] else [path ++ ":while:raise-leaves-body"]) ++
+      diagB K (path ++ ".b") b i.liveIn
   | .forS i x it extra b =>
       (if subB (vars it) i.liveIn then [] else [path ++ ":for:iter"]) ++
       (if subB (varsO extra) i.liveIn then [] else [path ++ ":for:extra"]) ++
       (if subB (i.liveOut.filter (fun y => y != x)) i.liveIn then [] else [path ++ ":for:exit"]) ++
       (if i.liveOut.contains x && !i.liveIn.contains x then [path ++ ":for:exit-target"] else []) ++
       (if subB ((blockIn b i.liveIn).filter (fun y => y != x)) i.liveIn then [] else [path ++ ":for:body-in"]) ++
-      diagB (path ++ ".b") b i.liveIn
+      (if subB K.other i.liveIn then [] else [path ++ ":for:exc-finally"]) ++
+      (if raiseOKb K i (raisesB b) then [] else [path ++ ":for:raise-leaves-body"]) ++
+      diagB K (path ++ ".b") b i.liveIn
+  | .withS i _ b =>
+      (if subB (blockIn b i.liveOut) i.liveIn then [] else [path ++ ":with:body-in"]) ++ diagB K (path ++ ".b") b i.liveOut
+  | .tryS i b hs f =>
+      let C := i.liveOut ++ K.all
+      let Fi := blockIn f C
+      let Fx := finExcIn K f i.liveOut
+      diagB K (path ++ ".f") f C ++
+      (hs.flatMap fun h => diagB (ExcCtx.toFin Fx) (path ++ ".h" ++ toString h.1) h.2 Fi) ++
+      diagB { hs := handlerIns Fi hs, other := Fx } (path ++ ".b") b Fi ++
+      (if subB (blockIn b Fi) i.liveIn then [] else [path ++ ":try:body-in"])
 where
-  diagB (path : String) (b : List AStmt) (O : List Name) : List String :=
+  diagB (K : ExcCtx) (path : String) (b : List AStmt) (O : List Name) : List String :=
     let rec go (k : Nat) : List AStmt → List String
       | [] => []
       | s :: r =>
-        diagS (path ++ "." ++ toString k) s ++
+        diagS K (path ++ "." ++ toString k) s ++
         (if subB (blockIn r O) s.info.liveOut then [] else [path ++ "." ++ toString k ++ ":seq"]) ++ go (k+1) r
     go 0 b
 
@@ -212,6 +247,8 @@ partial def bvOkS : AStmt → Bool
       let s := AStmt.forS i x it ex b
       let r := bv s.modified i.liveIn i.liveOut i.definedIn
       i.declared == r.scopeVars && (i.undefined.mergeSort (· ≤ ·)) == (r.undefined.mergeSort (· ≤ ·)) && b.all bvOkS
+  | .withS _ _ b => b.all bvOkS
+  | .tryS _ b hs f => b.all bvOkS && hs.all (fun h => h.2.all bvOkS) && f.all bvOkS
   | _ => true
 
 def runAll (p : List AStmt) (t : List TStmt) (fuel : Nat) (inp : List (Name × Val)) : Sexp :=
@@ -235,7 +272,7 @@ def handlers : List (String × (List Sexp → String)) := [
           .list [.atom "pure", boolS (pureB p)],
           .list [.atom "bv", boolS (p.all bvOkS)],
           .list [.atom "zerotrip", boolS (forTargetZeroTripB p)],
-          .list (.atom "diag" :: ((diagS.diagB "" p O).map .atom)),
+          .list (.atom "diag" :: ((diagS.diagB ExcCtx.top "" p O).map .atom)),
           .list [.atom "func", tblockSexp (funcB p)]])
       | _, _, _ => "bad-node"
     | _ => "bad-args"),
@@ -243,6 +280,21 @@ def handlers : List (String × (List Sexp → String)) := [
   ("c02.run", fun a => match a with
     | p :: t :: f :: inps => match ablock? p, tblock? t, f.nat?, inps.mapM input? with
       | some p, some t, some fuel, some inps => toString (Sexp.list (inps.map (runAll p t fuel)))
+      | _, _, _, _ => "bad-node"
+    | _ => "bad-args"),
+  -- c02.runlog <ablock> <tblock> <fuel> <input>*  ->  per input ((source-outcome log) (native-outcome log)), log = enter:t / exit:t / call:f
+  ("c02.runlog", fun a => match a with
+    | p :: t :: f :: inps => match ablock? p, tblock? t, f.nat?, inps.mapM input? with
+      | some p, some t, some fuel, some inps =>
+        let ev : Event → Sexp := fun e => match e with
+          | .enter k => .atom ("enter:" ++ toString k)
+          | .exit k => .atom ("exit:" ++ toString k)
+          | .call g _ => .atom ("call:" ++ g)
+        toString (Sexp.list (inps.map fun inp =>
+          let rs := execB X0 fuel (eraseB p) (stOf inp)
+          let rn := execNB X0 fuel t (tstOf inp)
+          .list [.list [outSexp (rs.map (·.1)), .list ((rs.map (·.2.log)).getD [] |>.map ev)],
+                 .list [outSexp (rn.map (·.1)), .list ((rn.map (·.2.log)).getD [] |>.map ev)]]))
       | _, _, _, _ => "bad-node"
     | _ => "bad-args"),
   -- c02.risk <tblock>  ->  the finding-class predicate `stateUnboundRisk`
